@@ -10,12 +10,13 @@ use std::sync::mpsc::{channel, Receiver, RecvTimeoutError};
 use std::time::{Duration, Instant};
 
 fn build(target: &str, hooked: bool) -> Result<PathBuf, String> {
-    let dir = format!("/verif/.target/{}", target);
-    let log = format!("/verif/.work/build-{}.log", target);
-    let _ = std::fs::create_dir_all("/verif/.work");
+    let root = crate::ev::root();
+    let dir = format!("{}/.target/{}", root, target);
+    let log = format!("{}/.work/build-{}.log", root, target);
+    let _ = std::fs::create_dir_all(format!("{}/.work", root));
     let mut cmd = Command::new("cargo");
-    cmd.current_dir("/verif")
-        .args(["build", "--release", "--offline", "--manifest-path", "/repo/Cargo.toml", "--target-dir", &dir])
+    cmd.current_dir(&root)
+        .args(["build", "--release", "--offline", "--manifest-path", &format!("{}/Cargo.toml", std::env::var("WALLEYE_REPO").unwrap_or_else(|_| "/repo".to_string())), "--target-dir", &dir])
         .env("CARGO_NET_OFFLINE", "true");
     if hooked {
         cmd.env("RUSTFLAGS", "--cfg walleye_verif");
@@ -56,7 +57,7 @@ pub struct CliOut {
 static WORK_SEQ: AtomicU64 = AtomicU64::new(0);
 
 pub fn scratch_dir() -> PathBuf {
-    let d = PathBuf::from(format!("/verif/.work/run-{}-{}", std::process::id(), WORK_SEQ.fetch_add(1, Ordering::Relaxed)));
+    let d = PathBuf::from(format!("{}/.work/run-{}-{}", crate::ev::root(), std::process::id(), WORK_SEQ.fetch_add(1, Ordering::Relaxed)));
     let _ = std::fs::create_dir_all(&d);
     d
 }
